@@ -115,6 +115,11 @@ Definition T_N (c : list pt) : Z := N20 c + N02 c.
 Definition Disc_N (c : list pt) : Z :=
   (N20 c - N02 c) * (N20 c - N02 c) + N11 c * N11 c.
 
+(* the second-moment matrix is positive definite: mu20, mu02 > 0 and
+   mu20 * mu02 > mu11^2, in integers *)
+Definition pd_contour (c : list pt) : bool :=
+  (0 <? N20 c) && (0 <? N02 c) && (N11 c * N11 c <? 4 * (N20 c * N02 c)).
+
 (* rotation by the angle of (p, q) combined with the scaling sqrt(p^2+q^2):
    for integer p, q the angles atan2(q, p) are dense *)
 Definition simmap (p q : Z) (c : list pt) : list pt :=
@@ -843,3 +848,14 @@ Definition run_spill (x : list Z * list Z) : list Z :=
                             (c 4%nat) (c 5%nat) in
   let '(f1, f2, f3) := spill m (t 0%nat) (t 1%nat) (t 2%nat) in
   encq f1 ++ encq f2 ++ encq f3.
+
+(* the closed form of the principal inertia ratio squared evaluated with the
+   integer bracket  s <= sqrt D < s + 1  of the square root:
+   [pd; lower; upper] with  lower <= (T + sqrt D)/(T - sqrt D) < upper *)
+Definition run_prnc_bracket (c : list pt) : list Z :=
+  let T := T_N c in
+  let s := Z.sqrt (Disc_N c) in
+  if pd_contour c && (s + 1 <? T) then
+    1 :: encq (Qmake (T + s) 1 / Qmake (T - s) 1)%Q
+      ++ encq (Qmake (T + s + 1) 1 / Qmake (T - s - 1) 1)%Q
+  else [0].
